@@ -49,4 +49,83 @@ theorem shl24_inj (i j : BitVec 32) (hi : i.toNat < 256) (hj : j.toNat < 256) (h
   simp only [BitVec.toNat_shiftLeft, Nat.shiftLeft_eq] at this
   omega
 
+
+/-! ### any two different windows of ≤ 32 bits are separated -/
+
+def valOfBits : List Bool → Nat
+  | [] => 0
+  | b :: r => (if b then 2 ^ r.length else 0) + valOfBits r
+
+theorem valOfBits_bitsOfByte : ∀ x : Fin 256, valOfBits (Spec.bitsOfByte x.val) = x.val := by decide +kernel
+
+theorem bitsOfByte_length (b : Nat) : (Spec.bitsOfByte b).length = 8 := rfl
+
+theorem bitsOfByte_inj (x y : Nat) (hx : x < 256) (hy : y < 256) (h : Spec.bitsOfByte x = Spec.bitsOfByte y) : x = y := by
+  have a := valOfBits_bitsOfByte ⟨x, hx⟩
+  have b := valOfBits_bitsOfByte ⟨y, hy⟩
+  simp only at a b
+  rw [← a, ← b, h]
+
+theorem flatBits_inj (w w' : Bytes) (hl : w.length = w'.length) (hw : ∀ b ∈ w, b < 256) (hw' : ∀ b ∈ w', b < 256)
+    (h : w.flatMap Spec.bitsOfByte = w'.flatMap Spec.bitsOfByte) : w = w' := by
+  induction w generalizing w' with
+  | nil => cases w' with
+    | nil => rfl
+    | cons _ _ => simp at hl
+  | cons x r ih =>
+    cases w' with
+    | nil => simp at hl
+    | cons y s =>
+      simp only [List.flatMap_cons] at h
+      have := List.append_inj h (by rw [bitsOfByte_length, bitsOfByte_length])
+      have hxy := bitsOfByte_inj x y (hw x (by simp)) (hw' y (by simp)) this.1
+      rw [hxy, ih s (by simpa using hl) (fun b hb => hw b (by simp [hb])) (fun b hb => hw' b (by simp [hb])) this.2]
+
+theorem flatBits_length (w : Bytes) : (w.flatMap Spec.bitsOfByte).length = 8 * w.length := by
+  induction w with
+  | nil => rfl
+  | cons x r ih => simp only [List.flatMap_cons, List.length_append, bitsOfByte_length, ih, List.length_cons]; omega
+
+theorem xorBits_length (m e : List Bool) (h : m.length = e.length) : (xorBits m e).length = m.length := by
+  induction m generalizing e with
+  | nil => cases e <;> simp [xorBits]
+  | cons a r ih => cases e with
+    | nil => simp at h
+    | cons b s => simp [xorBits, ih s (by simpa using h)]
+
+/-- equal-length bit strings that differ have an XOR pattern with a first one: zeros, a one, a rest -/
+theorem xorBits_split (m e : List Bool) (h : m.length = e.length) (hne : m ≠ e) :
+    ∃ a b, xorBits m e = List.replicate a false ++ true :: b := by
+  induction m generalizing e with
+  | nil => cases e with
+    | nil => exact absurd rfl hne
+    | cons _ _ => simp at h
+  | cons x r ih =>
+    cases e with
+    | nil => simp at h
+    | cons y s =>
+      by_cases hxy : x = y
+      · subst hxy
+        have hrs : r ≠ s := fun hh => hne (by rw [hh])
+        obtain ⟨a, b, hab⟩ := ih s (by simpa using h) hrs
+        refine ⟨a + 1, b, ?_⟩
+        simp [xorBits, hab, List.replicate_succ]
+      · refine ⟨0, xorBits r s, ?_⟩
+        cases x <;> cases y <;> simp_all [xorBits]
+
+/-- the bit-serial register separates any two different bit strings of the same length ≤ 32, from any state -/
+theorem feedBits_window_inj (c : BitVec 32) (m e : List Bool) (h : m.length = e.length) (h32 : m.length ≤ 32)
+    (heq : feedBits c m = feedBits c e) : m = e := by
+  apply Decidable.byContradiction
+  intro hne
+  obtain ⟨a, b, hab⟩ := xorBits_split m e h hne
+  have hx := feedBits_xor c c m e h
+  rw [BitVec.xor_self, heq, BitVec.xor_self, hab] at hx
+  have hlen := xorBits_length m e h
+  rw [hab] at hlen
+  simp only [List.length_append, List.length_replicate, List.length_cons] at hlen
+  have := burst_nonzero a 0 b (by omega)
+  simp only [List.replicate_zero, List.append_nil] at this
+  exact this hx
+
 end Astits
